@@ -110,6 +110,44 @@ def run_shard(args):
                 out["violations"].append({"kind": "second-run-not-green", "detail": {"events": notok[:5], "missing": r2.missing, "incorrect": r2.incorrect, "after_run1": after1.decode()[:2500]}, "witness": wit, "finding": None})
         if len(out["samples"]) < 2 and changed1:
             out["samples"].append({"F": sorted(F), "runs": n, "before": src[:900], "after_run1": after1.decode()[:900]})
+    # ---- real sessions: run 1 approves all four categories, run 2 is identical
+    from .. import session
+
+    nreal = {"quick": 1 if args.shard < 4 else 0, "thorough": 6}[tier]
+    for c in range(nreal):
+        rng = random.Random(f"{args.seed}/{PROP}/session/{args.shard}/{c}")
+        sites = [c05.make_site(rng, i, 2) for i in range(rng.randint(4, 8))]
+        for s in sites:
+            if s["place"] == "module" and s["old"] is None:
+                s["place"] = "loop"
+        src, order = program.build(sites, style="rec", tests=rng.randint(1, 3), header="from inline_snapshot import snapshot, Is, HasRepr, external, outsource\nfrom vp import *\n")
+        proj = session.Project({"test_a.py": src})
+        try:
+            fl = ["--inline-snapshot=create,fix,trim,update"]
+            r1 = session.run_session(proj, fl)
+            r2 = session.run_session(proj, fl)
+        finally:
+            proj.close()
+        C["real_session_pairs"] = C.get("real_session_pairs", 0) + 1
+        out["evaluations"] += 1
+        out["signatures"].add("real-session/all-four-twice")
+        wit = {"files": {"test_a.py": src}, "args": fl}
+        if any(a["kind"] == "sessionfinish_exception" for a in r1.audit + r2.audit):
+            out["violations"].append({"kind": "session-end-raised", "detail": {"events": [a for a in r1.audit + r2.audit if a["kind"] == "sessionfinish_exception"]}, "witness": wit, "finding": None})
+            continue
+        problems = []
+        if r2.exit != 0:
+            problems.append(f"second run exit status {r2.exit}")
+        if r2.changed:
+            problems.append(f"second run changed {r2.changed}")
+        for word in ("Create snapshots", "Fix snapshots", "Trim snapshots"):
+            if word in r2.stdout:
+                problems.append(f"second run reports '{word}'")
+        w = [a for a in r2.audit if a["kind"] in ("open_w", "rename", "remove") and str(a.get("path", a.get("dst"))).endswith(".py")]
+        if w:
+            problems.append(f"second run wrote test files: {w[:2]}")
+        if problems:
+            out["violations"].append({"kind": "second-real-session-is-not-a-no-op", "detail": {"problems": problems, "stdout_tail": r2.stdout[-1200:]}, "witness": wit, "finding": None})
     out["signatures"] = sorted(out["signatures"])
     return out
 
